@@ -103,7 +103,7 @@ def main():
             meta = json.load(open(f"{d}/meta.json"))
             prop = meta.get("property", os.path.basename(wt)[-3:])
             prop = re.search(r"C\d\d", prop).group(0) if re.search(r"C\d\d", prop) else os.path.basename(wt)[-3:]
-            name = f"{prop}-{x}" + ("2" if "/wt2-" in wt else "3" if "/wt3-" in wt else "4" if "/wt4-" in wt else "5" if "/wt5-" in wt else "6" if "/wt6-" in wt else "7" if "/wt7-" in wt else "")
+            name = f"{prop}-{x}" + ("2" if "/wt2-" in wt else "3" if "/wt3-" in wt else "4" if "/wt4-" in wt else "5" if "/wt5-" in wt else "6" if "/wt6-" in wt else "7" if "/wt7-" in wt else "8" if "/wt8-" in wt else "")
             outp = f"{OUT}/{name}.json"
             rec = json.load(open(outp)) if os.path.exists(outp) else {}
             t0 = time.time()
